@@ -60,6 +60,27 @@ Theorem C02_bp_reward_before_error_handling_refuted :
 Proof. exact bp_reward_before_error_handling_refuted. Qed.
 Print Assumptions C02_bp_reward_before_error_handling_refuted.
 
+(** (a) with the block-generation deadline as an input: [d] = how many more transactions may
+    start before the deadline (None = never).  The producer stops BEFORE executing the first
+    transaction after the deadline (checkBGTimeout is composed before the executor), so for EVERY
+    deadline position the block is accepted with the producer's block state. *)
+Theorem C02_produce_validate_agree_deadline :
+  forall (C M R P T : Type) (etx : bstate C M R P -> T -> bool * bool * bstate C M R P) cands d bs b bs',
+    skips_clean_d C M R P T etx d bs cands -> produce_d C M R P T etx d bs cands = (b, bs') ->
+    validate C M R P T etx bs b = Some bs'.
+Proof. exact produce_validate_agree_deadline. Qed.
+Print Assumptions C02_produce_validate_agree_deadline.
+
+(** the order of seeded/C02-r2/patch.diff (deadline tested after the transaction has run) is
+    refuted: the transaction during which the deadline passes is in the producer's state but not
+    in its block. *)
+Theorem C02_deadline_checked_after_tx_refuted :
+  exists cands d bs,
+    let '(b, bs') := produce_d_mut Z unit Z unit Z (execute_tx Z unit Z unit Z demo_core) d bs cands in
+    exists bs'', validate Z unit Z unit Z (execute_tx Z unit Z unit Z demo_core) bs b = Some bs'' /\ bs'' <> bs'.
+Proof. exact deadline_checked_after_tx_refuted. Qed.
+Print Assumptions C02_deadline_checked_after_tx_refuted.
+
 (** (b)/(c) uniqueness of sorted permutations for a strict total order. *)
 Theorem C02_sorted_perm_unique : forall (A : Type) (ltb : A -> A -> bool) (P : A -> Prop),
   irreflexive ltb -> transitive ltb -> total_on ltb P ->
